@@ -1652,7 +1652,7 @@ def run(ctx: C.Ctx):
                 'depths, sibling lists whose merge step adds two or more types at once) — each unusual shape enabled per document with '
                 'a small probability so that most documents are ones the unchanged generator handles) x 4 flag combinations: source '
                 'vs Lean module AST (ast + line scan), import as a real module, root class loads every source element, inferred '
-                'types, every key has a field, generation twice; A-then-B vs pristine B in forked children of a fresh process; a sample '
+                'types, every key has a field, generation twice; A-then-B vs pristine B in forked children of a fresh process, every call stating its flags in some spelling (True / False / None / argument left out) and handing the document over as text or as a file, also after a generation with every flag on; a sample '
                 '(corpus, many-types family, random documents) generated in fresh interpreters under PYTHONHASHSEED 0 / 1 / 7 / 42 / a seeded '
                 'random one and compared byte for byte with each other and with the text this process generated and loaded; the '
                 'CLI as a subprocess on temp files with a pre-existing output. Non-trivial = distinct (document, flags).')
